@@ -504,6 +504,8 @@ type LoopSpec struct {
 	Invs      []*Clause
 	BodyEns   []*Clause
 	BodyRet   []*Clause
+	ExitEns   []*Clause // at every edge that leaves the loop from its head
+	BreakEns  []*Clause // at every edge that leaves the loop from another block of it
 	Decreases *Clause
 	Modifies  []*Clause
 }
@@ -619,7 +621,7 @@ var clauseKW = map[string]bool{
 	"modifies": true, "loop": true, "invariant": true, "decreases": true, "safe": true,
 	"nowrap": true, "wrapok": true, "inline": true, "trusted": true, "uses": true, "split": true, "props": true,
 	"axiom": true, "induction": true, "guarded_by": true, "pure": true, "assert": true, "timeout": true,
-	"trigger": true, "abstract": true, "opaque": true, "reveal": true, "implementations": true, "body_ensures": true, "body_returns": true, "lock_property": true, "init_only": true, "write_guarded_by": true, "before": true, "after": true, "only": true, "props_of": true, "unchanged_unless": true,
+	"trigger": true, "abstract": true, "opaque": true, "reveal": true, "implementations": true, "body_ensures": true, "body_returns": true, "exit_ensures": true, "break_ensures": true, "lock_property": true, "init_only": true, "write_guarded_by": true, "before": true, "after": true, "only": true, "props_of": true, "unchanged_unless": true,
 }
 
 func splitName(rest string) (name, body string) {
@@ -965,6 +967,15 @@ func (sf *SpecFile) Load(path, pkg string) (err error) {
 				return fmt.Errorf("%s:%d: body_ensures outside loop", path, rc.line)
 			}
 			curLoop.BodyEns = append(curLoop.BodyEns, mk())
+		case "exit_ensures", "break_ensures":
+			if curLoop == nil {
+				return fmt.Errorf("%s:%d: %s outside loop", path, rc.line, rc.kw)
+			}
+			if rc.kw == "exit_ensures" {
+				curLoop.ExitEns = append(curLoop.ExitEns, mk())
+			} else {
+				curLoop.BreakEns = append(curLoop.BreakEns, mk())
+			}
 		case "body_returns":
 			if curLoop == nil {
 				return fmt.Errorf("%s:%d: body_returns outside loop", path, rc.line)
